@@ -186,7 +186,11 @@ class CSSMediaRule(cssrule.CSSRuleRules):
                     rule = cssutils.css.CSSStyleRule(
                         parentRule=self, parentStyleSheet=self.parentStyleSheet
                     )
-                    rule.cssText = self._tokensupto2(tokenizer, token)
+                    # namespaces given with the text are for a detached rule
+                    rule.cssText = (
+                        self._tokensupto2(tokenizer, token),
+                        namespaces.namespaces,
+                    )
                     if rule.wellformed:
                         self.insertRule(rule)
                     return expected
@@ -217,7 +221,10 @@ class CSSMediaRule(cssrule.CSSRuleRules):
                         rule = factories[atval](
                             parentRule=self, parentStyleSheet=self.parentStyleSheet
                         )
-                        rule.cssText = tokens
+                        if atval == '@media':
+                            rule.cssText = (tokens, namespaces.namespaces)
+                        else:
+                            rule.cssText = tokens
                         if rule.wellformed:
                             self.insertRule(rule)
                     else:
